@@ -13,8 +13,8 @@ from harness import tlc
 
 SPEC_DIR = "/verif/specs/colang2"
 LEVEL = "model_checking"
-LIT = {"i1": "1", "ss": '"s"', "bT": "True", "n": "None", "l12": "[1, 2]", "da1": '{"a": 1}', "i7": "7", "sd": '"d"'}
-PY = {"i5": 5, "i1": 1, "ss": "s", "bT": True, "n": None, "l12": [1, 2], "da1": {"a": 1}, "i7": 7, "sd": "d"}
+LIT = {"i0": "0", "se": '""', "bF": "False", "i1": "1", "ss": '"s"', "bT": "True", "n": "None", "l12": "[1, 2]", "da1": '{"a": 1}', "i7": "7", "sd": '"d"'}
+PY = {"i0": 0, "se": "", "bF": False, "i5": 5, "i1": 1, "ss": "s", "bT": True, "n": None, "l12": [1, 2], "da1": {"a": 1}, "i7": 7, "sd": "d"}
 
 
 def tok(v):
